@@ -24,12 +24,18 @@ Record relcfg := mkrel { r_dir : reldir; r_local : list nat; r_excl : bool }.
 (* c_here: the column is stored in the table this (part of a) class writes; false for the columns a
    joined-table hierarchy keeps in another table: they count for change detection, not as data *)
 Record colcfg := mkcol { c_pk : bool; c_excl : bool; c_here : bool }.
-Record clscfg := mkcls {
+Record clscfg := mkcls7 {
   k_versioned : bool;          (* has __versioned__ and option 'versioning'            *)
-  k_validity  : bool;          (* option 'strategy' = 'validity'                       *)
+  k_validity  : bool;          (* option 'strategy' = 'validity' and this (part of a) class closes its
+                                  predecessor itself: false for the child-table part of a joined hierarchy *)
   k_tab       : Z;             (* identifies the version table (first component of vkey) *)
   k_cols      : list colcfg;   (* mapped table columns, in mapper order                *)
-  k_rels      : list relcfg }. (* relationships, in mapper order                       *)
+  k_rels      : list relcfg;   (* relationships, in mapper order                       *)
+  k_also      : list Z }.      (* base-table part of a joined-table hierarchy under the validity strategy: the
+                                  child tables of the hierarchy; closing the predecessor (looked up in the base
+                                  table, update_version_validity) closes its rows in those tables too *)
+Definition mkcls (v val : bool) (tab : Z) (cols : list colcfg) (rels : list relcfg) : clscfg :=
+  mkcls7 v val tab cols rels [].
 Record cfg := mkcfg {
   g_versioning  : bool;        (* manager.options['versioning']        *)
   g_native      : bool;        (* manager.options['native_versioning'] *)
@@ -319,9 +325,33 @@ Definition flush (g : cfg) (s : state) (objs : list obj_st) (ents : list ent_ev)
       end
   end.
 
+(* ---- joined-table hierarchies: the predecessor of a version is the previous version of the key in the
+   BASE table of the hierarchy, whichever class it had; closing it closes its rows in the child tables *)
+Definition no_hierb (g : cfg) : bool :=
+  forallb (fun cc => match k_also cc with [] => true | _ => false end) (g_classes g).
+
+Definition hier_closed (g : cfg) (T : Z) (vt : vtable) (x : vrow) : bool :=
+  existsb (fun cc =>
+     existsb (Z.eqb (hd 0 (vkey x))) (k_also cc) &&
+     existsb (fun r => (hd 0 (vkey r) =? k_tab cc) && (vtx r =? T) &&
+                       list_eqb Z.eqb (tl (vkey r)) (tl (vkey x)) &&
+                       sql_eq (Some (vtx x)) (max_below vt (vkey r) T)) vt) (g_classes g).
+
+Definition hier_pass (g : cfg) (s : state) : state :=
+  if no_hierb g then s else
+  match u_cur (s_uow s) with
+  | None => s
+  | Some T =>
+      let d := s_db s in
+      mks (mkdb (d_live d)
+                (map (fun x => if hier_closed g T (d_vt d) x then set_end x (Some T) else x) (d_vt d))
+                (d_av d) (d_tx d) (d_chg d))
+          (s_committed s) (s_uow s) (s_err s)
+  end.
+
 Definition step (g : cfg) (s : state) (e : ev) : state :=
   match e with
-  | Flush objs ents assoc => flush g s objs ents assoc
+  | Flush objs ents assoc => hier_pass g (flush g s objs ents assoc)
   | Commit => mks (s_db s) (s_db s) uow0 (s_err s)               (* after_commit -> clear      *)
   | Rollback => mks (s_committed s) (s_committed s) uow0 (s_err s) (* database + clear(_connection) *)
   | ManualTx => if g_versioning g then create_transaction s else s
